@@ -40,6 +40,26 @@ CHECKS["C15"] = dict(
     technique="Coq proof (invariants by induction over call sequences) + model/implementation correspondence",
 )
 
+CHECKS["C04"] = dict(
+    category="proof",
+    text=("Coq theorems for every expected-number state and every frame list of any length: payload handed up iff frmNum is the expected "
+          "one, exactly one ACK/NAK per DATA frame with the post-state number, deliveries = what an in-sequence receiver accepts (a "
+          "sublist of arrivals, consecutive numbers mod 8 between RSTACKs), RSTACK/ERROR/ACK/NAK/RST effects. Tied to the real "
+          "AshProtocol.frame_received and data_received by correspondence (exhaustive short sequences from all 8 states, long random runs)."),
+    design_ref="DESIGN.md section 6 C04",
+    technique="Coq proof by induction over frame lists + model/implementation correspondence",
+)
+CHECKS["C02"] = dict(
+    category="proof",
+    text=("Coq refinement theorem: for every byte stream and every partition into reads whose unterminated residue stays within the "
+          "buffer, the transliterated receive loop produces exactly the outputs and state of a specification-derived per-byte reference "
+          "decoder; chunking independence; buffer bound for any input; frames with invalid escape or CRC never deliver. Tied to the "
+          "real AshProtocol.data_received by correspondence (exhaustive reserved-byte alphabet under all chunkings, mutated frame "
+          "streams, oversized reads, garbage with tracemalloc)."),
+    design_ref="DESIGN.md section 6 C02",
+    technique="Coq refinement proof (loop vs per-byte automaton) + model/implementation correspondence",
+)
+
 NOT_YET = {}
 
 
